@@ -33,6 +33,22 @@ var monitors = map[string]monitorSpec{
 	"C13": {"transform", "transform_mon_test.go.txt", "transform sequences as called by encode/decode: output within bounds, inverse restores the block into the decoder's buffer, declined blocks pass through intact, no panic"},
 }
 
+// supplements: bounded monitors that run in addition to the SMT obligations of
+// a property (reported under coverage.bounded, never added to the proof counts).
+var supplements = map[string]monitorSpec{
+	"C15": {"io", "names_mon_test.go.txt", "name <-> type round trip over all chains of length <= 3 and all spellings; streams written with lower/mixed-case names are byte-identical to the canonical spelling and decode"},
+	"C01": {"io", "stream_mon_test.go.txt", "codec-dependent part of the round trip: NewWriter/Write*/Close then NewReader/ReadAll returns the bytes written, over sampled configurations"},
+	"C04": {"io", "stream_mon_test.go.txt", "codec-dependent part of determinism: identical compressed bytes for different job counts and splits of the data into Write calls"},
+	"C02": {"io", "stream_mon_test.go.txt", "codec-dependent part: single-bit damage of checksummed streams never yields wrong bytes"},
+	"C09": {"io", "stream_mon_test.go.txt", "codec-dependent part: truncated streams never decode successfully to fewer bytes"},
+	"C11": {"io", "stream_mon_test.go.txt", "codec-dependent part: block ranges return exactly the bytes of those blocks"},
+	"C05": {"io", "stream_mon_test.go.txt", "codec-dependent part: the decoded bytes are the original, in order, for 1, 2, 3 and 8 decoding jobs"},
+	"C06": {"io", "stream_mon_test.go.txt", "stream level: sources delivering 1, 3, 7, 13 or 4096 bytes per call and consumers reading odd-sized pieces get the original bytes"},
+	"C08": {"io", "stream_mon_test.go.txt", "codec-dependent part: sinks and sources that fail after a pseudo-random number of bytes are never answered with success on incomplete data"},
+	"C03": {"io", "stream_mon_test.go.txt", "codec-dependent part: mutated streams never make the reader panic or run longer than 60 s"},
+	"C14": {"bitstream", "bits_mon_test.go.txt", "bit-level content: values read back by ReadBit/ReadBits/ReadArray equal the values written by WriteBit/WriteBits/WriteArray, for unaligned counts and short reads"},
+}
+
 type monitorResult struct {
 	Evals, Nontrivial int
 	Rule              string
@@ -48,7 +64,10 @@ type monitorFail struct{ Case, What string }
 var reFail = regexp.MustCompile(`KVC-FAIL case=(\S+) what=(.*)$`)
 
 func runMonitor(prop, tier, oneCase string) monitorResult {
-	spec := monitors[prop]
+	spec, ok := monitors[prop]
+	if !ok {
+		spec = supplements[prop]
+	}
 	start := time.Now()
 	var res monitorResult
 	work := filepath.Join(verifDir(), ".work", fmt.Sprintf("mon-%s-%d", prop, os.Getpid()))
@@ -76,6 +95,7 @@ func runMonitor(prop, tier, oneCase string) monitorResult {
 		timeout = "120m"
 	}
 	cmd := exec.Command("go", "test", "-overlay", ovFile, "-vet=off", "-count=1", "-timeout", timeout, "-v", "-run", "TestKvcMon", "./"+spec.Pkg+"/")
+	_ = ok
 	cmd.Dir = filepath.Join(repoDir(), "v2")
 	env := []string{}
 	for _, e := range os.Environ() {
@@ -84,7 +104,7 @@ func runMonitor(prop, tier, oneCase string) monitorResult {
 		}
 		env = append(env, e)
 	}
-	env = append(env, "GOFLAGS=-mod=mod", "GOPROXY=off", "KVC_MON_TIER="+tier, "KVC_MON_CASE="+oneCase)
+	env = append(env, "GOFLAGS=-mod=mod", "GOPROXY=off", "KVC_MON_TIER="+tier, "KVC_MON_CASE="+oneCase, "KVC_MON_PROP="+prop)
 	cmd.Env = env
 	var out bytes.Buffer
 	cmd.Stdout = &out
